@@ -213,6 +213,10 @@ def per_member_verified(F, S):
 
 def check(F, run, tier):
     S = Summaries(F)
+    from ..rules_archive import handlers_rethrow
+    _oh, _nh = handlers_rethrow(F, S, ["/src/"])
+    run.add(_oh)
+    run.floor("exception-handlers", _nh, 7)
     from ..rules_archive import noexcept_obligations
     noexcept_obligations(F, S, run)
     run.declined = DECLINED
